@@ -7,12 +7,15 @@ func (p *Parser) parseDocElement() (INode, *Error) {
 	switch t.Typ {
 	case TokenHTML:
 		n := &nodeHTML{token: t, template: p.template}
-		left := p.PeekTypeN(-1, TokenSymbol)
-		right := p.PeekTypeN(1, TokenSymbol)
-		n.trimLeft = left != nil && left.TrimWhitespaces
-		n.trimRight = right != nil && right.TrimWhitespaces
-		n.afterBlock = left != nil && left.Val == "%}"
-		n.beforeBlock = right != nil && right.Val == "{%"
+		if !t.verbatim {
+			// (the body of a verbatim block is never trimmed)
+			left := p.PeekTypeN(-1, TokenSymbol)
+			right := p.PeekTypeN(1, TokenSymbol)
+			n.trimLeft = left != nil && left.TrimWhitespaces
+			n.trimRight = right != nil && right.TrimWhitespaces
+			n.afterBlock = left != nil && left.Val == "%}"
+			n.beforeBlock = right != nil && right.Val == "{%"
+		}
 		p.Consume() // consume HTML element
 		return n, nil
 	case TokenSymbol:
